@@ -152,6 +152,16 @@ Theorem C11_status_errors : forall kec cfg reg amount s w,
 Proof. exact register_errors. Qed.
 Print Assumptions C11_status_errors.
 
+(* Through the real evm client ([evm_wait]: a caller that starts waiting after the client's own
+   watcher consumed the receipt is told "tx not found"): success is reported exactly when the
+   caller itself obtained the receipt and it carries status 1.  A receipt the caller did not
+   get -- consumed earlier, dropped, never mined -- is an error, whatever the chain holds. *)
+Theorem C11_status_via_client : forall kec cfg reg amount s w late,
+  snd (register kec cfg reg amount s (evm_wait late w)) = Ok tt <->
+  late = false /\ exists h, s = SHash h /\ w = WReceipt 1.
+Proof. exact register_via_client_status. Qed.
+Print Assumptions C11_status_via_client.
+
 (* The function as it was before the repair reported a reverted transaction as success ... *)
 Theorem C11_status_refuted : forall kec cfg reg,
   exists amount s w, w = WReceipt 0 /\ snd (register_v0 kec cfg reg amount s w) = Ok tt.
